@@ -38,7 +38,7 @@ func (c08) Batches(tier string, seed uint64) []core.Batch {
 
 func (c08) Mandatory(tier string) []string {
 	return []string{"shape:single", "shape:multi", "shape:interior-empty", "shape:empty-run>=2", "shape:indented", "shape:trailing-empty-line", "shape:trailing-NL", "shape:no-trailing-NL",
-		"shape:empty-value", "shape:hash-line", "cycle:documents", "cycle:with-continuations", "cycle:via-Encoder", "encoder:one-by-one", "encoder:slice", "encoder:mixed-call-sequence", "encoder:empty-struct-in-sequence", "encoder:n>=2", "shape:line>=4096-bytes"}
+		"shape:empty-value", "shape:hash-line", "cycle:documents", "cycle:with-continuations", "cycle:via-Encoder", "writer:broke-down-in-an-earlier-call", "encoder:one-by-one", "encoder:slice", "encoder:mixed-call-sequence", "encoder:empty-struct-in-sequence", "encoder:n>=2", "shape:line>=4096-bytes"}
 }
 
 type c08Field struct {
@@ -94,6 +94,19 @@ func c08FirstLine(r *core.Rand) string {
 		l = r.Pick([]string{" ", "\t", "   ", " \t"}) + l
 	}
 	return l
+}
+
+// breakingWriter accepts `left` bytes and then fails every write (short write + error).
+type breakingWriter struct{ left int }
+
+func (w *breakingWriter) Write(p []byte) (int, error) {
+	if len(p) <= w.left {
+		w.left -= len(p)
+		return len(p), nil
+	}
+	n := w.left
+	w.left = 0
+	return n, errInjectedRead
 }
 
 func scanWritten(c *core.C, what string, out []byte) {
@@ -162,6 +175,17 @@ func (p c08) paraCase(c *core.C, fields []c08Field) {
 		}
 	}
 	var buf bytes.Buffer
+	// now and then the paragraph first goes to a writer that breaks down part-way (a full disk, a closed
+	// connection); whatever that attempt left behind must not leak into later output
+	if len(fields)%3 == 1 {
+		k := 1
+		for _, f := range fields {
+			k += len(f.Name)
+		}
+		para.WriteTo(&breakingWriter{left: k})
+		para.WriteTo(&breakingWriter{left: 0})
+		c.Cover("writer:broke-down-in-an-earlier-call")
+	}
 	if err := para.WriteTo(&buf); err != nil {
 		c.Failf("WriteTo failed: %v", err)
 		return
